@@ -245,6 +245,12 @@ package parse
 //@ func (*TreeShapeListener).EnterTable
 //@   maypanic
 //@   assert @store:F.parse.TreeShapeListener.typemap [field-table-new-or-the-existing-one] fresh(stored) || (existing.GetRelation() != nil && stored == existing.GetRelation().AttrDefs) || (existing.GetTuple() != nil && stored == existing.GetTuple().AttrDefs)
+// whichever keyword the block uses, its fields go into the definition that is registered under the name (a table
+// re-opened with !type, or the reverse, extends the existing relation / tuple — never an orphan map)
+//@   ensures [fields-of-this-block-go-into-the-registered-type] (type1.GetRelation() != nil ==> s.typemap == type1.GetRelation().AttrDefs) && (type1.GetTuple() != nil ==> s.typemap == type1.GetTuple().AttrDefs)
+// a type that is declared again keeps the object that carries its recorded locations: an entry is only ever created
+// for a name that has none (the one-line stub form included)
+//@   assert @mapupdate:map[string]*sysl.Type [declared-type-keeps-its-recorded-locations] !in(mapkey, maptarget)
 
 // At return the REST endpoint just (re)declared carries, as its current location and as the last entry of its
 // location list, the start of this method rule — whatever the verb.
